@@ -1,9 +1,10 @@
 // c15: model checking of property C15 (async variants and concurrent read-only calls).
-//   c15 quick|thorough            orchestrator (scheduler build): shards scenarios over worker processes,
-//                                 runs the free-running race pass, writes evidence/C15.json
-//   c15 -worker i/n <tier>        explores the scenarios with index % n == i, prints one JSON line each
-//   c15 -replay <file>            re-executes one recorded schedule without the explorer
-//   c15race <tier>                (built without the scheduler, with -race) free-running pass
+//
+//	c15 quick|thorough            orchestrator (scheduler build): shards scenarios over worker processes,
+//	                              runs the free-running race pass, writes evidence/C15.json
+//	c15 -worker i/n <tier>        explores the scenarios with index % n == i, prints one JSON line each
+//	c15 -replay <file>            re-executes one recorded schedule without the explorer
+//	c15race <tier>                (built without the scheduler, with -race) free-running pass
 package main
 
 import (
